@@ -184,6 +184,9 @@ class Sim:
         self.fn = {'load': set(), 'dump': set()}
         self.gov = {}        # cid -> [(effective meta, op index)]
         self.f10_dirty = set()
+        self.f10_keys = {}      # cid -> Meta settings that ever differed between two generations of its tables
+        self.cur_kind = None
+        self.f10_rebind = {}
         self.ltr_nov1 = set()   # classes that got a load key transform from a Meta that was not (yet) v1
         self.tainted40 = {}  # cid -> indices of the BindMeta operations (addressed to another class) that rewrote its Meta object
         self.tainted11 = {}  # cid -> indices of the definitions that left the foreign initialiser it picked up
@@ -201,6 +204,8 @@ class Sim:
 
     MERGED = ('ltr', 'dtr', 'raise', 'skipdef', 'auto_tags', 'tag_key', 'marshal', 'skip_if', 'v1', 'v1_case')
     SPECIAL = ('rec', 'jk2f')          # __special_attrs__: taken from the first operand of `|` only
+    LOAD_KEYS = {'ltr', 'raise', 'v1', 'v1_case', 'auto_tags', 'tag_key', 'jk2f'}
+    DUMP_KEYS = {'dtr', 'skipdef', 'marshal', 'skip_if', 'auto_tags', 'tag_key', 'v1', 'jk2f'}
 
     @staticmethod
     def m_or(a, b):
@@ -337,6 +342,7 @@ class Sim:
                 self.mobj[r] = self.m_and(self.mobj[r], o['meta'])
             return regions
         kind = 'load' if k == 'load' else 'dump'
+        self.cur_kind = kind
         c = o['cid'] if k == 'load' else o['inst']['c']
         d = self.decl[c]
         owner = None
@@ -391,14 +397,22 @@ class Sim:
         # load key transform on the default-engine loader and became v1 later, the re-bind moves the transform
         # onto its v1 loader
         rebind = cascaded and n in self.ltr_nov1 and (self.own(n) or {}).get('v1')
-        if rebind and n not in self.f10_dirty:
-            self.f10_dirty.add(n)
-            regions.setdefault('F10', set()).add(self.i)
-        # (once two different Metas met on n, WHICH earlier call filled which table decides the outcome,
-        #  so every earlier call that touched n counts as a cause)
-        if any(g != e for g, j in self.gov.get(n, [])) or n in self.f10_dirty:
-            self.f10_dirty.add(n)
-            regions.setdefault('F10', set()).update(j for g, j in self.gov.get(n, []))
+        if rebind:
+            self.f10_keys.setdefault(n, set()).add('ltr')
+            self.f10_rebind.setdefault(n, self.i)
+        for g, j in self.gov.get(n, []):
+            if g != e:
+                self.f10_keys.setdefault(n, set()).update(k for k in e if g.get(k) != e.get(k))
+        # the settings that can change the outcome of a load / of a dump (a differing dump key transform cannot
+        # change a load, a differing unknown-key policy cannot change a dump)
+        relevant = Sim.LOAD_KEYS if self.cur_kind == 'load' else Sim.DUMP_KEYS
+        if self.f10_keys.get(n, set()) & relevant:
+            # (once two different Metas met on n, WHICH earlier call filled which table decides the outcome,
+            #  so every earlier call that touched n counts as a cause)
+            causes = {j for g, j in self.gov.get(n, [])}
+            if n in self.f10_rebind:
+                causes.add(self.f10_rebind[n])
+            regions.setdefault('F10', set()).update(causes)
         self.gov.setdefault(n, []).append((e, self.i))
         if self.taints40(n):
             regions.setdefault('F40', set()).update(self.taints40(n))
@@ -547,6 +561,8 @@ class Prog:
         self.seen_vt = set()
         self.pending_fwd = None
         self.allow_fwd = True
+        self.v1 = set()        # classes whose Meta says v1 (own, bound, or inherited through a JSONWizard base)
+        self.loaded = []       # classes loaded so far
         self.neg = {}          # cid -> [(pool field name | None, key spelling)]: keys the class was loaded with and does not know
 
     # ---- classes
@@ -598,6 +614,8 @@ class Prog:
             if self.ext and self.allow_fwd and kind == 'leaf' and r.random() < 0.18 and len(self.decl) < self.max_classes - 1:
                 # forward reference to the class that will be defined NEXT (same module)
                 req.append(['fwd_items', {'fwd': self.next, 'qn': self.qn_base + self.next}, None])
+                if r.random() < 0.6 and not any(f[1] == 'catchall' for f in req):
+                    req.append(['rest', 'catchall', None])
                 self.pending_fwd = c
             nest = []
             if kind == 'root' or force_nested:
@@ -613,6 +631,8 @@ class Prog:
              'fields': allf, 'own_fields': own, 'tag': 'subclass' if base is not None else 'define'}
         self.decl[c] = o
         self.ops.append(o)
+        if (o['inner'] or {}).get('v1') or (base is not None and wiz and base in self.v1):
+            self.v1.add(c)
         return c
 
     def tree(self, c):
@@ -759,6 +779,8 @@ class Prog:
             o = {'op': 'dump', 'attr': attr, 'inst': self.gen_inst(c, kind == 'subtype'), 'tag': 'dump' if kind == 'dump' else 'novel_subtype'}
         self.touched.update(self.tree(c))
         self.ops.append(o)
+        if o['op'] == 'load':
+            self.loaded.append(c)
         return o
 
     def bind(self, c=None):
@@ -768,7 +790,24 @@ class Prog:
         c = self.r.choice(cands)
         o = {'op': 'bind', 'cid': c, 'meta': gen_meta_x(self.r) if self.ext else gen_meta(self.r), 'tag': 'bind'}
         self.ops.append(o)
+        if o['meta'].get('v1'):
+            self.v1.add(c)
         return o
+
+    def subclass_after_use(self):
+        """a subclass of an already LOADED class, configured like its base (v1 stays v1), loaded through fromdict"""
+        r = self.r
+        if not self.loaded or len(self.decl) >= self.max_classes + 1:
+            return False
+        b = r.choice(self.loaded)
+        c = self.new_class('sub', pool={b})
+        if b in self.v1 and c not in self.v1:
+            self.ops.append({'op': 'bind', 'cid': c, 'meta': {'ltr': None, 'dtr': None, 'raise': None, 'skipdef': None, 'rec': None, 'v1': True},
+                             'tag': 'bind'})
+            self.v1.add(c)
+        self.use(c=c, kind=r.choice(['load', 'load', 'novel']))
+        self.ops[-1]['attr'] = False
+        return True
 
 
 def gen_history(r, n_ops, ext=False):
@@ -780,10 +819,17 @@ def gen_history(r, n_ops, ext=False):
         if p.pending_fwd is not None:
             # generation-time failure, then the cause is removed (the referenced class gets defined), then a retry
             c0, p.pending_fwd = p.pending_fwd, None
+            if r.random() < 0.6:
+                o = p.bind(c0)
+                if o is not None:
+                    o['meta']['v1'] = True
+                    p.v1.add(c0)
             if r.random() < 0.8:
                 p.use(c=c0, kind=r.choice(['load', 'load', 'dump']))
             p.new_class('leaf')
             p.use(c=c0, kind='load')
+        elif x > 0.86 and left > 1 and p.subclass_after_use():
+            pass
         elif len(p.decl) < p.max_classes and x < (0.45 if len(p.decl) < 2 else 0.22) and left > 1:
             p.new_class()
         elif x < 0.34 and p.bind() is not None:
